@@ -105,7 +105,7 @@ def gen_params(rng, cls, ndat_min, nch_min):
     fam = "SSI" if cls.startswith("SSI") else "pLSCF" if cls.startswith("pLSCF") else "FDD"
     permissive = rng.random() < 0.7
     if fam == "SSI":
-        p = {"br": rng.randint(2, 8), "ordmax": rng.choice([4, 6, 8, 10, 12]), "ordmin": 0, "step": 1}
+        p = {"br": rng.randint(2, 8), "ordmax": rng.choice([4, 6, 8, 10, 12]), "ordmin": rng.choice([0, 0, 0, 2]), "step": 1}
         if permissive:
             p["hc"] = dict(PERMISSIVE)
         if rng.random() < 0.35:
@@ -124,7 +124,7 @@ def gen_params(rng, cls, ndat_min, nch_min):
     p = {"nxseg": nx, "method_SD": rng.choice(["per", "cor"]), "pov": rng.choice([0.0, 0.5, 0.5, 0.75])}
     if fam == "pLSCF":
         p["ordmax"] = rng.randint(3, 8)
-        p["ordmin"] = 0
+        p["ordmin"] = rng.choice([0, 0, 0, 1])
         if permissive:
             p["hc"] = {k: v for k, v in PERMISSIVE.items() if k != "cov_max"}
     return p
@@ -206,10 +206,21 @@ def gen_world(rng):
                 if c.endswith("_MS"):
                     p.pop("ref_ind", None)
                 a = {"cls": c, "name": f"{c}_{j}", "home": t["home"], "params": p}
+            if twins and rng.random() < 0.15:
+                # the user hands ONE ready-made parameter object to two algorithms of classes that use the same
+                # parameter class: whatever one of them writes into it is seen by the other
+                t = rng.choice(twins)
+                group = [g for g in (["SSIdat", "SSIcov"], ["SSIdat_MS", "SSIcov_MS"], ["EFDD", "FSDD"], ["FDD"], ["pLSCF"],
+                                     ["FDD_MS"], ["EFDD_MS"], ["pLSCF_MS"]) if t["cls"] in g][0]
+                c = rng.choice(group)
+                a = {"cls": c, "name": f"{c}_{j}", "home": t["home"], "params": copy.deepcopy(t["params"]),
+                     "share_params_with": algs.index(t)}
             if rng.random() < 0.15:
                 # no name given: the class name is used - two such algorithms of one class in one setup collide,
                 # and the one added later takes over the registration
                 a["name"], a["default_name"] = a["cls"], True
+            if rng.random() < 0.2:
+                a["params_as_object"] = True  # a ready-made RunParams object instead of keywords
             if rng.random() < 0.12:
                 a["params"] = None  # constructed without run parameters: the gate must hold
             if rng.random() < 0.06 and a["params"] is not None:
@@ -244,11 +255,17 @@ def build_arrays(w):
     return out
 
 
-def make_alg(spec):
+def make_alg(spec, built=None):
     cls = _classes()[spec["cls"]]
     name = None if spec.get("default_name") else spec["name"]
+    j = spec.get("share_params_with")
+    if (built is not None and j is not None and spec["params"] is not None and j < len(built)
+            and getattr(built[j], "run_params", None) is not None):
+        return cls(run_params=built[j].run_params, name=name)  # the very same parameter object
     if spec["params"] is None:
         return cls(name=name)
+    if spec.get("params_as_object"):
+        return cls(run_params=cls.RunParamCls(**copy.deepcopy(spec["params"])), name=name)
     return cls(name=name, **copy.deepcopy(spec["params"]))
 
 
@@ -345,10 +362,13 @@ class World:
         self.arrays = build_arrays(w)
         self.user_hash = [[h_array(a) for a in arrs] for arrs in self.arrays]
         self.setups = [make_setup(s, self.arrays[i], w["fs"]) for i, s in enumerate(w["setups"])]
-        self.algs = [make_alg(a) for a in w["algs"]]
+        self.algs = []
+        for a in w["algs"]:
+            self.algs.append(make_alg(a, self.algs))
         self.st = [AlgState(a) for a in w["algs"]]
         for st, alg in zip(self.st, self.algs):
             st.clean_params = copy.deepcopy(alg.run_params)
+        self.order = [[] for _ in self.setups]  # per setup: algorithm indices in registration order (the model's own)
         self.refs = {}  # isolated-execution memo
         self.saved = {}  # path -> records {"snap", "states", "setup"} that may legitimately be read back
         self.last_good = {}  # setup index -> path of its latest successful save
@@ -385,12 +405,15 @@ class World:
         from pyoma2.setup import BaseSetup
 
         alg = self.algs[ai]
-        key = (type(alg).__name__, h_obj(alg.run_params), h_data(alg.data), repr(layout_sig(alg.data)), repr(alg.fs))
+        # the parameters exactly as the user supplied them (constructor / set_run_params): whatever an mpe call, a run or
+        # another algorithm sharing the same parameter object wrote into them since must not reach the reference
+        params = self.st[ai].clean_params if self.st[ai].clean_params is not None else alg.run_params
+        key = (type(alg).__name__, h_obj(params), h_data(alg.data), repr(layout_sig(alg.data)), repr(alg.fs))
         ent = self.refs.get(key)
         if ent is None:
             fresh = type(alg)(name="ref")
-            if alg.run_params is not None:
-                fresh.set_run_params(copy.deepcopy(alg.run_params))
+            if params is not None:
+                fresh.set_run_params(copy.deepcopy(params))
             bs = BaseSetup()
             bs.data, bs.fs = alg.data, alg.fs
             before = h_data(alg.data)
@@ -449,8 +472,15 @@ class World:
             "user": [[h_array(a) for a in arrs] for arrs in self.arrays],
         }
 
+    def sharers(self, idxs):
+        """Algorithms whose run-parameter OBJECT is the same as that of one of `idxs` (the user may share one)."""
+        objs = [self.algs[i].run_params for i in idxs if getattr(self.algs[i], "run_params", None) is not None]
+        return {j for j, a in enumerate(self.algs) if any(getattr(a, "run_params", None) is o for o in objs)} | set(idxs)
+
     def check_isolation(self, before, after, step, allow):
         """allow: dict(result=set(alg idx), params=set(alg idx), data=set(alg idx), setup=set(setup idx))"""
+        if allow.get("params"):
+            allow = {**allow, "params": self.sharers(allow["params"])}
         if after["user"] != self.user_hash:
             self.violate("iso.data_mutated", step, "an array passed in by the user was modified in place")
             return
@@ -482,6 +512,12 @@ def gen_mpe_args(rng, cls, ref_alg, fs, nmodes=None, hopeless=False):
     r = ref_alg.result
     fam = "SSI" if cls.startswith("SSI") else "pLSCF" if cls.startswith("pLSCF") else "EFDD" if cls[:4] in ("EFDD", "FSDD") else "FDD"
     k = nmodes or rng.randint(1, 3)
+    if nmodes is None and rng.random() < 0.03:
+        # nothing to extract: legal, whatever the class makes of it the isolated extraction must make the same
+        base = {"sel_freq": []}
+        if fam in ("SSI", "pLSCF"):
+            base["order"] = 1
+        return base
     if fam in ("SSI", "pLSCF"):
         Fn = np.asarray(r.Fn_poles, dtype=float)
         ncols = Fn.shape[1]
@@ -566,7 +602,13 @@ def gen_op(rng, wd: World, swarm, step, script):
             fresh = [i for i in cand if wd.st[i].added_to is None]
             pick = fresh if fresh and rng.random() < 0.8 else cand
             n = min(len(pick), rng.choice([1, 1, 2, 3]))
-            return {"op": "add", "setup": si, "algs": sorted(rng.sample(pick, n))}
+            algs = sorted(rng.sample(pick, n))
+            r2 = rng.random()
+            if r2 < 0.04:
+                algs = []  # add_algorithms() with nothing: legal, changes nothing
+            elif r2 < 0.10:
+                algs = algs + [algs[0]]  # the same instance twice in one call
+            return {"op": "add", "setup": si, "algs": algs}
         if k == "run":
             if mem and rng.random() < 0.93:
                 return _with_fault(rng, wd, swarm, {"op": "run", "setup": si, "name": w["algs"][rng.choice(mem)]["name"]})
@@ -778,7 +820,12 @@ def poser_script(rng, w):
     rng.shuffle(order)
     for si in order:
         mine = [i for i in base if w["algs"][i]["home"] == si]
-        steps.append(lambda r, wd, si=si, mine=mine: {"op": "add", "setup": si, "algs": mine})
+        if len(mine) > 1 and rng.random() < 0.4:
+            for i in mine:  # one add_algorithms call per algorithm: the registration order must be the same
+                steps.append(lambda r, wd, si=si, i=i: {"op": "add", "setup": si, "algs": [i]})
+        else:
+            steps.append(lambda r, wd, si=si, mine=mine: {"op": "add", "setup": si, "algs": mine})
+    n_add = len(steps)  # the add steps stay in front
     for si in order:
         if rng.random() < 0.5:
             steps.append(lambda r, wd, si=si: {"op": "run_all", "setup": si})
@@ -789,9 +836,9 @@ def poser_script(rng, w):
         for i in [i for i in base if w["algs"][i]["home"] == si]:
             steps.append(lambda r, wd, si=si, i=i: _mpe_op(r, wd, si, i, nmodes=2))
     if rng.random() < 0.15:
-        tail = steps[ns:]
+        tail = steps[n_add:]
         rng.shuffle(tail)  # interleave runs/mpes of different setups (an mpe before its run becomes a gate probe)
-        steps[ns:] = tail
+        steps[n_add:] = tail
     p = rng.random()
     victim = rng.randrange(ns)
     vm = [i for i in base if w["algs"][i]["home"] == victim]
@@ -849,9 +896,14 @@ def apply_op(wd: World, op, step):
             if st.added_to is not None and st.added_to != si:
                 wd.inc("probe.moved_between_setups")
             st.added_to = si
+            if i not in wd.order[si]:
+                wd.order[si].append(i)
             for j in wd.members(si):
                 if j != i and w["algs"][j]["name"] == w["algs"][i]["name"]:
-                    wd.st[j].added_to = None  # same name: the later registration replaces the earlier one
+                    wd.st[j].added_to = None  # same name: the later registration replaces the earlier one ...
+                    if j in wd.order[si]:
+                        wd.order[si].remove(i)  # ... and takes over its place in the registration order
+                        wd.order[si][wd.order[si].index(j)] = i
                     wd.inc("probe.name_collision_replaces_registration")
             a = wd.algs[i]
             if a.data is not setup.data and h_data(a.data) != h_data(setup.data):
@@ -926,15 +978,8 @@ def apply_op(wd: World, op, step):
 
 
 def _expect_order(wd, si):
-    """Members of a setup in the order run_all is allowed to visit them (registration order)."""
-    setup = wd.setups[si]
-    names = list(getattr(setup, "algorithms", {}) or {})
-    out = []
-    for n in names:
-        i = wd.find(si, n)
-        if i is not None:
-            out.append(i)
-    return out
+    """Members of a setup in registration order, from the model's own bookkeeping (not read back from the setup)."""
+    return [i for i in wd.order[si] if wd.st[i].added_to == si]
 
 
 def _do_run(wd, op, step, before):
@@ -1030,7 +1075,7 @@ def _do_run(wd, op, step, before):
             st.unknown, st.ran, st.mpe = True, True, "unknown"  # that one result is not judged
             st.result_after_run = None
             touched.add(i)
-        wd.check_isolation(before, after, step, {"result": touched})
+        wd.check_isolation(before, after, step, {"result": touched, "params": set(targets)})
         return outcome
     # fault-free: every target either ran (equals its reference) or the call stopped at it
     stopped = False
@@ -1093,7 +1138,7 @@ def _do_run(wd, op, step, before):
     if rexc is not None and not stopped:
         wd.violate("exc.type_neq_ref", step, f"every member runs in isolation, but the call raised {type(rexc).__name__}: {rexc}")
         return outcome
-    wd.check_isolation(before, after, step, {"result": allow})
+    wd.check_isolation(before, after, step, {"result": allow, "params": set(targets)})
     return outcome
 
 
@@ -1188,8 +1233,9 @@ def _do_mpe(wd, op, step, before):
                                          f"stored result in fields {diff_fields(a, want)}", ai)
         return "ok"
     if after["algs"][ai]["params"] != h_obj(pre.run_params):
-        wd.violate("mpe.neq_ref", step, f"mpe on {name}: run parameters after the call differ from those of the isolated extraction", ai)
-        return "ok"
+        # not judged: the property says nothing about what the parameter object holds after an extraction, and an
+        # implementation may legitimately have recorded things in it during the run
+        wd.inc("probe.params_after_mpe_differ_from_isolated_extraction")
     fn = getattr(pre.result, "Fn", None)
     st.mpe = "no" if fn is None else "yes"
     wd.inc("probe.mpe_ok_equal_to_isolated_reference")
@@ -1210,7 +1256,8 @@ def _do_mpe(wd, op, step, before):
 # may leave the old content (atomic implementations), the new content, or something unreadable - never a setup
 # that was not saved there.
 def _record(wd, si):
-    return {"snap": canon_setup(wd.setups[si]), "states": {i: copy.copy(wd.st[i]) for i in wd.members(si)}, "setup": si}
+    return {"snap": canon_setup(wd.setups[si]), "states": {i: copy.copy(wd.st[i]) for i in wd.members(si)}, "setup": si,
+            "order": list(wd.order[si])}
 
 
 def _match(wd, path, got):
@@ -1436,6 +1483,7 @@ def _do_crash_inner(wd, op, step):
             if p == path and sj == si and crashed:
                 wd.inc("probe.torn_save_left_a_loadable_file")
             _restore_model_from(wd, sj, obj, m["states"])
+            wd.order[sj] = [i for i in m.get("order", []) if wd.st[i].added_to == sj]
             restored = True
             break
         if not restored:
@@ -1467,6 +1515,7 @@ def _fresh_setup(wd, sj):
             wd.algs[i] = make_alg(a)
             wd.st[i] = AlgState(a)
     wd.last_good.pop(sj, None)
+    wd.order[sj] = []
 
 
 # -- PoSER --------------------------------------------------------------------------------------
@@ -1646,7 +1695,7 @@ def _epilogue(wd, step):
                            f"at the end of the history (no fault armed) a clean run of {wd.w['algs'][i]['name']} differs from the isolated run in "
                            f"{diff_fields(after['algs'][i]['result'], ent['fields'])}", i)
                 return
-            wd.check_isolation(before, after, step, {"result": {i}})
+            wd.check_isolation(before, after, step, {"result": {i}, "params": {i}})
             if wd.stop:
                 return
             st.ran, st.mpe, st.unknown, st.stale = True, "no", False, False
